@@ -864,8 +864,11 @@ fn do_command_substitution_for_dollar(sh: &mut Shell, tokens: &mut types::Tokens
                     cr
                 }
                 Err(e) => {
+                    // an inner command that cannot be parsed yields a
+                    // diagnostic and an empty replacement (`continue` here
+                    // would retry the same text forever).
                     println_stderr!("cicada: {}", e);
-                    continue;
+                    types::CommandResult::new()
                 }
             };
 
